@@ -19,7 +19,7 @@ pub fn meta() -> Meta {
         rule: "seeded programs from the grammar generator WITHOUT layout restrictions (labels referenced in any letter case, DEC with every operand shape, .ORG to any address relative to the current one, images from 0 to beyond 256 bytes built from .BYTE/.DB/.DW/.ORG mixes, 0-40 labels, header-only files); every program the real parser accepts is compiled and loaded (Machine::load and Machine::new_with_program) under catch_unwind; a sample is written to disk and pushed through the real binary: `2a-emulator verify` exit 0 must imply that `2a-emulator run <file> 0` does not die from a panic. distinct_nontrivial counts distinct (layout class, image-size bucket, uses mixed-case refs, uses DEC memory forms) classes of accepted programs",
         exhaustive: false,
         assumptions: vec!["panics are classified by the layout class of the program (well-formed / backward .ORG / image larger than the RAM, decided by the harness's own layout rules) and the panic site, so a known finding never hides a crash on a well-formed program"],
-        floors: vec![("accepted_programs", 20_000), ("compiled_and_loaded", 10_000), ("programs_with_backward_org", 500), ("programs_larger_than_ram", 500), ("programs_with_mixed_case_refs", 1_000), ("programs_with_dec_memory", 1_000), ("cli_pairs", 40)],
+        floors: vec![("accepted_programs", 20_000), ("compiled_and_loaded", 10_000), ("programs_with_backward_org", 500), ("programs_larger_than_ram", 500), ("programs_with_mixed_case_refs", 1_000), ("programs_with_dec_memory", 1_000), ("cli_pairs", 40), ("texts_with_undefined_label", 5_000)],
     }
 }
 
@@ -128,6 +128,18 @@ pub fn run(ctx: &Ctx) -> Report {
                 1 => g.text.push_str(&format!("\n .ORG 40\n NOP\n .ORG {}\n", rng.below(40))),
                 2 => g.text.push_str("\n .ORG 0xEF\n NOP\n NOP\n NOP\n"),
                 3 => g.text.push_str("\n .ORG 255\n .DW 1, 2\n"),
+                4 | 5 => {
+                    // a reference to a label that is defined nowhere, in every operand position that
+                    // can hold one: a correct parser rejects the text (then nothing is claimed), but if
+                    // it is accepted the later stages still must not crash
+                    const FORMS: [&str; 24] = [
+                        "JMP @", "JCS @", "JCC @", "JZS @", "JZC @", "JNS @", "JNC @", "JR @", "CALL @", "LD R0, @", "LD R1, (@)", "ST (@), R2", "DEC @", "DEC (@)", "LDSP @", "LDSP (@)",
+                        "LDFR @", "LDFR (@)", "MOV R0, @", "MOV (@), R0", "CMP (R0+), @", "BITT (@), (@)", "BITS R1, (@)", "BITC ((R2+)), @",
+                    ];
+                    let f = FORMS[rng.usize(FORMS.len())].replace('@', "nowhere_x9");
+                    g.text.push_str(&format!("\n {}\n", f));
+                    rep.inc("texts_with_undefined_label");
+                }
                 _ => {}
             }
             rep.evaluations += 1;
